@@ -1,5 +1,7 @@
 package main
 
+import "golang.org/x/tools/go/ssa"
+
 func init() {
 	register("C05",
 		"Decides C05's structural content as tables and contracts extracted from the source: for every codec builder, every accepting path pairs the Go kinds it admits with a codec whose Read/Write/Omit view the destination as exactly that kind (BT-WIDTH, with element, key and fixed-length side conditions BT-FIXED), wrapper codecs wrap a codec built for the same type (BT-SUB), record offsets and field types come from the same struct field (BT-REC), array/map codecs use one element type for codec, stride and allocation (BT-ARR, BT-MAP), every &x handed to another codec's method and every local reinterpretation is layout-compatible (PC-ARG, PC-CAST), registered builders return codecs for exactly the registered type (PC-REG). "+
@@ -8,7 +10,7 @@ func init() {
 			ruleBTWidth(c, true)
 			ruleBTRec(c)
 			ruleBTArrMap(c)
-			rulePCArg(c, nil)
+			rulePCArg(c, nil, 18, 3)
 			rulePCReg(c)
 			c.Assume = append(c.Assume, "reflect.Int is 64 bits wide (linux/amd64); on a 32-bit target the Int -> Int64Codec row would be a finding")
 		})
@@ -25,5 +27,40 @@ func init() {
 			ruleGCTarget(c)
 			rulePCNew(c)
 			ruleBTArrMap(c)
+		})
+}
+
+func isTimePkgFunc(P *Program) func(fn *ssa.Function) bool {
+	return func(fn *ssa.Function) bool {
+		for f := fn; f != nil; f = f.Parent() {
+			if f.Pkg == P.Time {
+				return true
+			}
+		}
+		return false
+	}
+}
+
+func init() {
+	register("C19",
+		"Decides necessary conditions of C19 in the time codecs: the builder's logical-type table gives the specification's nanoseconds per unit (TS-MULT); the reader computes time.Unix(0, l*mult) (TS-READ); on every path of the writer the unit the time is converted to equals every multiplier the builder can have assigned on that path (TS-UNIT) and the multiplier is consulted by both sides (E-FU); every &x handed to the embedded int codecs is a variable of exactly the codec's width (PC-ARG), so a negative day count is sign-correct. "+
+			"Not decided: the day/instant arithmetic itself (floor versus truncation before 1970, overflow of l*mult).",
+		func(c *Ctx) {
+			ruleTSMult(c)
+			ruleEFU(c, "time.", 1)
+			rulePCArg(c, isTimePkgFunc(c.P), 5, 1)
+			c.Note("not decided: DateCodec.Write divides Unix seconds by 86400 truncating toward zero (wrong before 1970 for non-midnight times); overflow of l*mult")
+		})
+
+	register("C20",
+		"Decides the structural clauses of C20: in the dispatcher every built-in per-type builder is reached only on the not-found edge of registry[typ] (pointer kinds first recurse on the element type; union/null schemas resolve structurally and build their branches through the dispatcher again), the registered builder is called with the dispatcher's own arguments (BT-REG); every sub-codec in every builder is built through the dispatcher (who-may-call); schema generation returns the registered schema before its kind switch and recurses only through schemaForType (SG-REG); Register/RegisterSchema unconditionally overwrite (REG-OVERWRITE); each of the library's six registrations pairs a builder with a schema whose branch type the builder accepts (REG-PAIR), returns codecs for exactly the registered type (PC-REG) and every codec's New matches its Read so registered types work as map values and pointer targets (PC-NEW). "+
+			"Not decided: round trip of values through a custom codec.",
+		func(c *Ctx) {
+			ruleBTReg(c)
+			ruleSGReg(c)
+			ruleRegOverwrite(c)
+			ruleRegPair(c)
+			rulePCReg(c)
+			rulePCNew(c)
 		})
 }
